@@ -319,6 +319,8 @@ func init() {
 		st := explore.Explore(func(ch vrt.Chooser) explore.Outcome { return runPose(script, ch, true) }, cfg)
 		res.Executions, res.States, res.Transitions, res.Steps = st.Executions, st.Executions, st.Points, st.Steps
 		res.Outcomes, res.Exhaustive, res.CapHit, res.MaxDepth = len(st.Outcomes), st.Exhaustive, st.CapHit, st.MaxPoints
+		res.BoundDone = &st.BoundDone
+
 		if len(st.Diverged) > 0 {
 			res.EngineError = "replay divergence: " + st.Diverged[0]
 		}
